@@ -19,7 +19,7 @@ EXPLANATION = (
     'discarded.'
 )
 ASSUMPTIONS = ["Task.cancel() delivers CancelledError at the task's current await", "asyncio.current_task() identifies the caller so close() does not cancel itself"]
-FLOORS = {"C15.R1": 3, "C15.R2": 4, "C15.R3": 14, "C15.R4": 1, "C15.R5": 9}
+FLOORS = {"C15.R1": 3, "C15.R2": 4, "C15.R3": 14, "C15.R4": 1, "C15.R5": 9, "C15.R6": 1}
 
 
 def run(ctx):
@@ -28,6 +28,18 @@ def run(ctx):
     r3(ctx)
     r4(ctx)
     r5(ctx)
+    from . import c09
+    from .common import reuse
+
+    def state_guards(c):
+        for modname in (AT4_API, AT5_API):
+            cases, mr = c09.extract(c, modname)
+            c09.r2(c, modname, cases, mr)
+            if modname == AT5_API:
+                c09.r3(c, modname, cases, mr)
+
+    reuse(ctx, "C15.R6", [state_guards], "a frame that is still being delivered while shutdown() runs cannot mark the client initialised again: every case of _message_received that changes state, sets the initialised event or starts the heartbeat is guarded by the one handshake state it belongs to, never by `!= CONNECTED` (C09.R2/R3)",
+          keep=lambda o: ":state" in o.construct or o.verdict != "HOLDS")
 
 
 def r1_r2(ctx):
